@@ -39,6 +39,14 @@ TABLE = {
  "C06-c": ("C06", "CubedArrayProxy.open() caches the opened array per proxy (dropped on pickling): needs an array that was computed in the client process and is then stored (to_zarr / store re-target the same proxy) with an in-process executor -> tasks write through the stale handle into the old intermediate array; the user's target keeps fill values; the processes executor is unaffected"),
  "C03-c": ("C03", "_rechunk sizes its extra_projected_mem from the largest TARGET chunk instead of the copy region: needs a rechunk whose copy region spans several store chunks (consolidated writes), a split along the last axis, the default compressor and Zarr's concurrent chunk encoding -> ~108 MB traced vs 99 MB projected; with compressor none or async.concurrency=1 there is no excess"),
  "C20-c": ("C20", "Plan gets value equality (output names + node names) so that the lru_cache on _finalize hits, plus a cache_clear in _store_array: needs an array built in another process (fresh counters, so identical generated names), shipped in and finalized/computed ON ITS OWN after the receiving process has finalized its own same-named array -> the local array's cached finalized plan is executed: ArrayNotFoundError or, with a shared intermediate store, the local array's values"),
+ "C04-c": ("C04", "Plan._finalize runs the admission check on the PRE-optimization DAG: needs an optimizer that bypasses the fusion veto (fuse_all / always_fuse), a fan-in of >= 2 fused predecessors and allowed_mem between the largest unfused op and the fused peak -> an over-budget fused plan is executed"),
+ "C13-c": ("C13", "fuse_multiple advertises the largest num_tasks of the ops it was fused from: needs the default optimizer fusing an op that reads several blocks per task (reduction combine step) with a predecessor that has more tasks -> advertised count exceeds the tasks run and the events delivered"),
+ "C02-c": ("C02", "the two-op fuse() takes its task iterable from the FIRST op: needs simple_optimize_dag and a consumer with the same number of tasks but other block coordinates (transpose of a non-square block grid, expand_dims, region store at an offset) -> IndexError / unwritten blocks"),
+ "C11-c": ("C11", "region store computes the source-block offset in units of target.chunks instead of the (shard-sized) task chunks: needs a sharded target whose shards differ from its inner chunks and a region starting at a non-zero offset -> wrong/negative source blocks: late error after misplaced data was written"),
+ "C09-c": ("C09", "resume flags are assigned from the outputs backwards and every ancestor of a complete op is marked computed without looking at storage: needs a resumed plan that materialises an array which the earlier (optimized) run had fused away -> that array is created empty and trusted"),
+ "C01-c": ("C01", "meshgrid reverses ALL axes for indexing='xy' instead of swapping the first two: needs three or more coordinate arrays with 'xy' -> transposed shapes / wrong values"),
+ "C17-c": ("C17", "the 'dropped axis must be a single chunk' check of make_blockwise_back_key_function only looks at the first array argument: needs map_blocks/blockwise with several arrays and drop_axis where a LATER argument has several chunks along the dropped axis -> accepted, then a task gets one block per chunk (TypeError mid-run or silently something else)"),
+ "C14-c": ("C14", "the irregular planner rounds consolidated read chunks up to whole source chunks, checking memory per axis: needs two or more axes on which the read chunk reaches the write-chunk limit (below the axis length), write chunks not multiples of the source chunks, and headroom enough for each rounding alone but not for their product -> first copy chunk exceeds max_mem"),
 }
 # seeds that were re-evaluated after strengthening: confirm.log holds the LATER run; what the first evaluation gave is recorded here
 FIRST = {
@@ -48,6 +56,10 @@ FIRST = {
  "C02-b": {"C02": {"exit": 0, "violation_lines": 0}},
  "C17-b": {"C17": {"exit": 0, "violation_lines": 0}, "C12": {"exit": 0, "violation_lines": 0}},
  "C05-c": {"C05": {"exit": 0, "violation_lines": 0}},
+ "C02-c": {"C02": {"exit": 0, "violation_lines": 0}},
+ "C11-c": {"C11": {"exit": 0, "violation_lines": 0}, "C05": {"exit": 0, "violation_lines": 0}},
+ "C01-c": {"C01": {"exit": 0, "violation_lines": 0}},
+ "C14-c": {"C14": {"exit": 0, "violation_lines": 0, "inconclusive": 1}},
  "C20-c": {"C20": {"exit": 0, "violation_lines": 0}},
  "C06-c": {"C06": {"exit": 0, "violation_lines": 0}},
  "C15-c": {"C15": "not run before strengthening (the report named the blind spot: patterns used distinct array names; miss by construction)"},
